@@ -30,7 +30,7 @@ import (
 //   Increment       value+1          Count(n) value+n  (n >= 0)
 //   Gauge(v)        value=v          Store(v) value=v
 //   Up / Down       value+1 / value-1
-//   Get -> (v, ok)  ok == exists, and v == value when ok
+//   Get -> (v, ok)  v == value when ok; ok=false only while the name is untouched
 //
 // A failing partition is re-checked against the "reset" specification (Register
 // sets value=0). If that one explains the history, the violation is the
@@ -146,7 +146,12 @@ func c33step(reset bool) func(st, in, out interface{}) (bool, interface{}) {
 			s.V--
 		case c33Get:
 			o := out.(c33out)
-			if o.Ok != s.Exists {
+			// ok=false ("never heard of it") is only legal while nothing has
+			// touched the name; ok=true must carry the recorded value. ok=true
+			// with the initial value 0 before the first operation took effect
+			// is allowed: the property is about values, and the store creates
+			// the entry and records into it in two steps.
+			if !o.Ok && s.Exists {
 				return false, s
 			}
 			if o.Ok && o.V != s.V {
